@@ -32,6 +32,9 @@ type Program struct {
 	Expect   []string
 	// Globals are installed in the JS context.
 	Globals map[string]any
+	// NativeFiles, when set, replaces Files for the native reference build (used by C10 to give
+	// the reference toolchain the files of each package under order-reversing names).
+	NativeFiles map[string]string
 	// NoHelpers suppresses the standard helper files.
 	NoHelpers bool
 	// Detail, when set, regenerates the program so that it prints every individual
@@ -113,7 +116,10 @@ func (e *Env) harness(msg string) {
 }
 
 // WriteProgram materialises the program under the work dir.
-func (e *Env) WriteProgram(p Program) (string, error) {
+func (e *Env) WriteProgram(p Program) (string, error) { return e.WriteProgramAs(p, ModName(p.Name)) }
+
+// WriteProgramAs materialises the program with an explicit module path.
+func (e *Env) WriteProgramAs(p Program, mod string) (string, error) {
 	dir := filepath.Join(e.Work, p.Name)
 	if err := os.MkdirAll(dir, 0o755); err != nil {
 		return "", err
@@ -123,7 +129,7 @@ func (e *Env) WriteProgram(p Program) (string, error) {
 		files[k] = v
 	}
 	if _, ok := files["go.mod"]; !ok {
-		files["go.mod"] = "module " + ModName(p.Name) + "\n\ngo 1.20\n"
+		files["go.mod"] = "module " + mod + "\n\ngo 1.20\n"
 	}
 	if !p.NoHelpers {
 		files["h_js.go"] = HelperJS
@@ -266,10 +272,24 @@ func (e *Env) Check(p Program, variants []Variant) {
 		os.RemoveAll(dir)
 	}()
 	var want ref.Outcome
+	bin := ""
 	if p.NoNative {
 		want = ref.Outcome{Lines: p.Expect, End: "exit0"}
 	} else {
-		bin, err := ref.BuildNative(dir, strings.Join(p.Tags, ","))
+		ndir := dir
+		if p.NativeFiles != nil {
+			np := p
+			np.Name = p.Name + "_native"
+			np.Files = p.NativeFiles
+			np.NativeFiles = nil
+			ndir, err = e.WriteProgramAs(np, ModName(p.Name))
+			if err != nil {
+				e.harness(err.Error())
+				return
+			}
+			defer os.RemoveAll(ndir)
+		}
+		bin, err = ref.BuildNative(ndir, strings.Join(p.Tags, ","))
 		if err != nil {
 			e.harness("native build of " + p.Name + " failed (generator bug): " + oneLine(err.Error()))
 			return
@@ -318,7 +338,7 @@ func (e *Env) Check(p Program, variants []Variant) {
 			}
 		}
 		if !p.NoNative {
-			want2 := ref.RunNative(filepath.Join(dir, "ref.bin"), 300*time.Second)
+			want2 := ref.RunNative(bin, 300*time.Second)
 			if strings.Join(want2.Lines, "\n") != strings.Join(want.Lines, "\n") || want2.End != want.End {
 				e.harness("non-reproducible native execution of " + p.Name)
 				continue
